@@ -240,25 +240,57 @@ def rand_def(rng, name, nsets=None, ctx_p=0.0, eof_p=0.1, kinds=None, maxrules=4
             ctx = None
             if rng.random() < ctx_p and r != EOFR and r[-1] != EOFR:
                 ctx = rand_ctx(rng)
+                if rng.random() < 0.7:
+                    # keep the lexeme short so that lexeme + context fit into the input bound
+                    r = rand_class(rng) if rng.random() < 0.6 else ('plus', rand_class(rng, False))
             rules.append(Rule(r, kind, ctx=ctx, target=target))
         sets.append((n, rules))
     return Def(name, sets, tags=tags)
 
 
+def range_class(rng):
+    lo = rng.choice(['a', 'b', 'c'])
+    hi = chr(min(ord(lo) + rng.randrange(1, 4), ord('f')))
+    items = [(lo, hi)]
+    if rng.random() < 0.3:
+        items.append((rng.choice(['x', 'y']), 'z'))
+    return cs(*items)
+
+
 def rand_ctx(rng):
     k = rng.random()
-    if k < 0.2:
+    if k < 0.12:
         return rand_class(rng)
-    if k < 0.4:
+    if k < 0.22:
         return st(''.join(rng.choice(ALPHA) for _ in range(rng.randrange(2, 4))))
-    if k < 0.5:
+    if k < 0.28:
         return EOFR
-    if k < 0.6:
+    if k < 0.34:
         return ('alt', rand_class(rng), EOFR)
-    if k < 0.7:
+    if k < 0.40:
         return ('star', rand_class(rng))
-    if k < 0.8:
+    if k < 0.46:
         return ('plus', rand_class(rng))
-    if k < 0.9:
-        return ('cat', rand_class(rng), rand_class(rng))
-    return ('cat', rand_regex(rng, 1), ('opt', EOFR)) if False else ('cat', rand_class(rng), ('star', rand_class(rng)))
+    # multi-step contexts: the lookahead automaton has non-accepting intermediate states entered through
+    # ranges, single characters and `_`
+    parts = []
+    for _ in range(rng.randrange(2, 4)):
+        q = rng.random()
+        if q < 0.35:
+            parts.append(range_class(rng))
+        elif q < 0.5:
+            parts.append(('plus', range_class(rng)))
+        elif q < 0.6:
+            parts.append(('star', range_class(rng)))
+        elif q < 0.8:
+            parts.append(ch(rng.choice(ALPHA + ['x'])))
+        elif q < 0.9:
+            parts.append(diff(ANY, rand_class(rng, False)))
+        else:
+            parts.append(('opt', ch(rng.choice(ALPHA))))
+    if rng.random() < 0.15:
+        parts.append(EOFR)
+    out = parts[0]
+    for p in parts[1:]:
+        out = ('cat', out, p)
+    return out
